@@ -1,0 +1,33 @@
+// This Source Code Form is subject to the terms of the Mozilla Public
+// License, v. 2.0. If a copy of the MPL was not distributed with this
+// file, You can obtain one at http://mozilla.org/MPL/2.0/.
+
+//go:build verif
+
+package queue
+
+// Contracts for the deductive verifier in /verif (govc). Comment-only file: it
+// adds no code. Lines starting with //@ are parsed by govc; see /verif/DESIGN.md.
+
+// C09: the event loop of the reconcile queue. The loop is the only code that touches the pending
+// queue (pqueue) and the in-flight set (onHold); its invariant says that no key is both in flight and
+// pending - so an item handed to a worker (moved to onHold) cannot be handed out again until it is
+// released - that neither container holds a key twice, and that the containers stay separate objects.
+//@ func newItem
+//@   inline
+//@ func (*Item[K, V]).Key
+//@   inline
+//@
+//@ func (*Queue[K, V]).Run
+//@   props C09
+//@   requires [wired] queue != nil && ctx != nil
+// stepping stones for the release case, where the pending queue is pushed to twice
+//@   at Push #2
+//@     assert [released-key-not-in-flight] forall i int :: 0 <= i && i < len(onHold.items) ==> onHold.items[i] != released.Key
+//@     assert [in-flight-never-pending-between-pushes] forall i int, j int :: 0 <= i && i < len(onHold.items) && 0 <= j && j < len(pqueue.items) ==> onHold.items[i] != pqueue.items[j].Key
+//@   loop #1
+//@     invariant [in-flight-never-pending] forall i int, j int :: 0 <= i && i < len(onHold.items) && 0 <= j && j < len(pqueue.items) ==> onHold.items[i] != pqueue.items[j].Key
+//@     invariant [no-duplicates] noDup(addr(onHold)) && uniqKeys(addr(pqueue))
+//@     invariant [separate] onHold.items.blk != addr(onHold).blk && pqueue.items.blk != addr(pqueue).blk && onHold.items.blk != addr(pqueue).blk &&
+//@       pqueue.items.blk != addr(onHold).blk && (onHold.items.blk != pqueue.items.blk || onHold.items.blk == 0) && addr(onHold).blk != addr(pqueue).blk
+//@     invariant [wired] queue != nil && ctx != nil && onHoldQueue != nil
